@@ -182,7 +182,18 @@ func MarshalPlan(p *Plan) []byte {
 // PRNG: SplitMix64. One integer decides everything.
 
 // Rng is a SplitMix64 stream.
-type Rng struct{ s uint64 }
+type Rng struct {
+	s uint64
+	// Scale multiplies the number of steps a generator draws with Steps (deep zone of the index space).
+	Scale int
+}
+
+// Steps draws a step count; plans in the deep zone of the index space are Scale times longer.
+func (r *Rng) Steps(lo, hi int) int { return r.Range(lo, hi) * max(r.Scale, 1) }
+
+// DeepBit marks the deep zone of the run-index space: NewPlan(property, master, i|DeepBit) draws the
+// same kind of plan, two to three times longer. The quick tier never goes there.
+const DeepBit = 1 << 24
 
 // NewRng seeds a stream.
 func NewRng(seed uint64) *Rng { return &Rng{s: seed} }
